@@ -163,6 +163,13 @@ CHECKS = {
         "D20 (array / parenthesised type-ids as template arguments) and D22 (nested redundant parentheses) are known findings matched by class.",
         "DESIGN.md 3/C02",
     ),
+    "C17": (
+        "model_checking",
+        "CrossHair (z3) exhaustive exploration of the C02 type-tree space x 6 formatter positions: each tree is formatted by the real format_decl / format / Parameter.format and re-parsed by the real parser; failures minimised by subtree and classified; name / specialization / decltype / value formats on parsed sources",
+        "Every C++-legal tree up to the depth bound, in variable, parameter, typedef, alias, template-argument and Parameter position, must re-parse to an equal tree with the same name; 'Confirmed over all paths' = exhausted.",
+        "Bound: depth <=2 (quick) / 3 (thorough), 6 base types, 10 wrappers. Array / parenthesised type-ids are not re-parsed in template-argument position (parser finding D20 of C02). AnonymousName is outside (documented unstable).",
+        "DESIGN.md 3/C17",
+    ),
 }
 
 NOT_YET = "no check landed yet in this build (planned engine and bounds: DESIGN.md section 3); not claimed until the check runs green"
